@@ -161,6 +161,18 @@ theorem tie_handler_effects :
            ("fix_object_names", "master_ob->name"), ("fix_object_names", "simul_efun_ob->name")],
       p ∈ Gen.C05.handlerAssigns := by decide
 
+/-- F_EFUNV takes and clears the spread count before it checks the argument types: an error raised BY the instruction
+    (Bad argument N) finds num_varargs = 0 (the model: `consume`, then the `craise` of the type error) -/
+theorem tie_spread_count : Gen.C05.efunvClearsSpreadCountBeforeTypeCheck = true := by decide
+
+/-- the consuming instruction leaves the count cleared whatever it was; a fault AT the instruction (before it executes) does
+    not — `execOp` raises before `execCore` runs — which is why restore_context clears it too (`restoreContext_spread`) -/
+theorem consume_clears_spread_count (m : M) : ∃ m', execCore .consume m = .ok m' ∧ m'.numVarargs = 0 :=
+  ⟨{ m with numVarargs := 0 }, by simp only [execCore], rfl⟩
+
+/-- restore_context clears the spread count (regenerated: the statement is there) -/
+theorem tie_restore_clears_spread_count : Gen.C05.restoreClearsSpreadCount = true := by decide
+
 /-- no handler of a T_ERROR_HANDLER slot calls back into LPC or raises an error: running one while the stack is unwound
     cannot start another unwinding (the model's `runSlotHandler` is a plain state update) -/
 theorem tie_error_handlers_are_leaves : Gen.C05.errorHandlersThatCallBack = [] := by decide
